@@ -24,6 +24,7 @@ META["decides"] += ' (As built: a narrowing may also be followed by an explicit 
 META["decides"] += ' (R-1 also accepts the narrowing written as an explicit match that returns the out-of-range error.)'
 
 INTEGER = "ciborium::value::integer::Integer"
+TRY_FROM = "core::convert::TryFrom::try_from"
 TRY_INTO = "core::convert::TryInto::try_into"
 # position -> required target type of the narrowing
 NARROW_TARGET = {
@@ -111,26 +112,52 @@ def check(ctx):
                 continue
             name = callee_path(t)
             c = t.get("callee") or {}
-            if name == TRY_INTO:
-                tgt = c["args"][1] if len(c.get("args", [])) > 1 else None
+            if name == TRY_INTO or (name == TRY_FROM and len(c.get("args", [])) > 1 and c["args"][1] == INTEGER):
+                # `i.try_into()` and `i64::try_from(i)` are the same checked conversion (TryInto is the blanket impl over TryFrom)
+                tgt = (c["args"][1] if name == TRY_INTO else c["args"][0]) if len(c.get("args", [])) > 1 else None
                 pv = pv or Prov(f)
                 # result must be the operand of a `?`
                 res = pv.call_term(bb)
                 through_try = False
                 residual_ok = False
                 explicit = False
+                # `.map(f)` on the way leaves the Err side alone: the values the narrowing's error travels in
+                carriers = {res}
+                grew = True
+                while grew:
+                    grew = False
+                    for b2, t2 in f.calls():
+                        if callee_path(t2) == "core::result::Result::<T, E>::map" and pv.operand_term(t2["args"][0], b2, "term") in carriers \
+                                and pv.call_term(b2) not in carriers:
+                            carriers.add(pv.call_term(b2))
+                            grew = True
                 for b2, t2 in f.calls():
-                    if callee_path(t2) == "core::ops::try_trait::Try::branch" and pv.operand_term(t2["args"][0], b2, "term") == res:
+                    if callee_path(t2) == "core::ops::try_trait::Try::branch" and pv.operand_term(t2["args"][0], b2, "term") in carriers:
                         through_try = True
-                    # `i.try_into().map_err(|_| CoseError::OutOfRangeIntegerValue)`: the same mapping written out, then `?` / return
-                    if callee_path(t2) == "core::result::Result::<T, E>::map_err" and pv.operand_term(t2["args"][0], b2, "term") == res:
+                    # `i.try_into().map_err(|_| CoseError::OutOfRangeIntegerValue)` / `.map_err(CoseError::from)`: the same mapping
+                    # written out, then `?` / return
+                    if callee_path(t2) == "core::result::Result::<T, E>::map_err" and pv.operand_term(t2["args"][0], b2, "term") in carriers:
                         from lib.codec import apply_fn
                         mapped = apply_fn(prog, pv.operand_term(t2["args"][1], b2, "term"), [("x",)])
-                        if mapped == ("aggr", "common::CoseError", "OutOfRangeIntegerValue", ()):
-                            m = pv.call_term(b2)
+                        via_from = bool(mapped) and is_call(mapped) and mapped[1] in (
+                            "<common::CoseError as core::convert::From<core::num::error::TryFromIntError>>::from",) or (
+                            bool(mapped) and is_call(mapped, "core::convert::From::from") and "TryFromIntError" in str(
+                                (t2.get("callee") or {}).get("full", "")) and "common::CoseError" in str((t2.get("callee") or {}).get("full", "")))
+                        if mapped == ("aggr", "common::CoseError", "OutOfRangeIntegerValue", ()) or via_from:
+                            ms = {pv.call_term(b2)}
+                            grew = True
+                            while grew:
+                                grew = False
+                                for b4, t4 in f.calls():
+                                    if callee_path(t4) == "core::result::Result::<T, E>::map" and pv.operand_term(t4["args"][0], b4, "term") in ms \
+                                            and pv.call_term(b4) not in ms:
+                                        ms.add(pv.call_term(b4))
+                                        grew = True
                             used = [b3 for b3, t3 in f.calls() if callee_path(t3) == "core::ops::try_trait::Try::branch"
-                                    and pv.operand_term(t3["args"][0], b3, "term") == m]
-                            returned = any(o["term"] == m for o in outcomes(f, pv) if o["kind"] in ("call", "value"))
+                                    and pv.operand_term(t3["args"][0], b3, "term") in ms]
+                            rets = pv.return_term()
+                            returned = any(o["term"] in ms for o in outcomes(f, pv) if o["kind"] in ("call", "value")) or rets in ms or (
+                                rets[0] == "phi" and any(x in ms for x in rets[1]))
                             if used or returned:
                                 through_try = explicit = True
                 if not through_try:
@@ -257,7 +284,9 @@ def check(ctx):
             a = pv.operand_term(t["args"][0], bb, "term")
             arith = [x for x in subterms(a) if isinstance(x, tuple) and x and x[0] in ("binop", "unop")]
             casts = [x for x in subterms(a) if isinstance(x, tuple) and x and x[0] == "cast" and x[1] == "IntToInt" and x[2][0] != "discr"]
-            ctx.ob("R-4", "widening:%s:%s" % (f.key, src), src in ("i64", "u64") and not arith and not casts,
+            anycast = [x for x in subterms(a) if isinstance(x, tuple) and x and x[0] == "cast" and x[1] != "PointerCoercion"]
+            # (`Value::from(f)` of a float that is a float already is `Value::Float(f)`: no integer is involved)
+            ctx.ob("R-4", "widening:%s:%s" % (f.key, src), (src in ("i64", "u64") and not arith and not casts) or (src == "f64" and not arith and not anycast),
                    "integer reaches the output through a lossless From<%s> with no arithmetic on the way" % src,
                    where=f.where(bb), detail={"value": show(a)[:120]}, sample={"fn": f.key, "value": show(a)[:120], "via": full})
     ctx.floor("R-4", "widening sites", nw, 9)
